@@ -203,6 +203,16 @@ func (r *Runner) run(spec *PropSpec) *runResult {
 			res.translate = append(res.translate, "lemma."+ln+": lemma not found in the contract files")
 		}
 	}
+	for _, g := range spec.Grounds {
+		if g == "infomodel" {
+			fc := r.w.groundInfoModel()
+			res.ctxs = append(res.ctxs, fc)
+			if fc.translateFail != "" {
+				res.translate = append(res.translate, "ipfix.InfoModel: "+fc.translateFail)
+			}
+			res.obls = append(res.obls, fc.obls...)
+		}
+	}
 	// global invariants of every package that contributes a function
 	pkgSeen := map[string]bool{}
 	for _, k := range keys {
